@@ -469,7 +469,8 @@ class _Split(ast.NodeTransformer):
         for st in body:
             st = self.visit(st)
             if isinstance(st, ast.Assign) and isinstance(st.value, ast.IfExp) and len(st.targets) == 1 and (isinstance(st.targets[0], ast.Name) or (
-                    isinstance(st.targets[0], ast.Tuple) and all(isinstance(t_, ast.Name) for t_ in st.targets[0].elts))):
+                    isinstance(st.targets[0], ast.Tuple) and all(isinstance(t_, ast.Name) for t_ in st.targets[0].elts)) or (
+                    isinstance(st.targets[0], ast.Attribute) and isinstance(st.targets[0].value, ast.Name))):
                 import copy as _copy
                 v = st.value
                 a = ast.copy_location(ast.Assign(targets=[st.targets[0]], value=v.body, lineno=st.lineno), st)
@@ -757,6 +758,111 @@ def _merge_same_test_ifs(tree: ast.Module) -> None:
             fn.body = merge(fn.body)
 
 
+def _bool_tables(tree: ast.Module, known: set) -> None:
+    """C28  `TABLE[<boolean test>]` where TABLE is a module-level pair that is new to the rule catalogue - a 2-tuple / 2-list indexed by the test
+    (False -> [0], True -> [1]) or a dict display with exactly the keys True and False - is the conditional expression `<T> if <test> else <F>`
+    (a dispatch table for a two-way choice is the choice).  The test must be a comparison, `isinstance(...)`, `not ...` - an expression whose
+    value is a bool, so that the table look-up cannot fail or pick a third entry."""
+    tables = {}
+    stores = {}
+    for x in ast.walk(tree):
+        if isinstance(x, ast.Name) and isinstance(x.ctx, (ast.Store, ast.Del)):
+            stores[x.id] = stores.get(x.id, 0) + 1
+    for st in tree.body:
+        tgt = val = None
+        if isinstance(st, ast.Assign) and len(st.targets) == 1 and isinstance(st.targets[0], ast.Name):
+            tgt, val = st.targets[0].id, st.value
+        elif isinstance(st, ast.AnnAssign) and isinstance(st.target, ast.Name) and st.value is not None:
+            tgt, val = st.target.id, st.value
+        if tgt is None or tgt in known or stores.get(tgt) != 1:
+            continue
+        if isinstance(val, (ast.Tuple, ast.List)) and len(val.elts) == 2 and all(_static_elem(e) for e in val.elts):
+            tables[tgt] = {False: val.elts[0], True: val.elts[1]}
+        elif isinstance(val, ast.Dict) and len(val.keys) == 2 and all(isinstance(k, ast.Constant) and isinstance(k.value, bool) for k in val.keys) \
+                and {k.value for k in val.keys} == {True, False} and all(_static_elem(e) for e in val.values):
+            tables[tgt] = {k.value: v for k, v in zip(val.keys, val.values)}
+    if not tables:
+        return
+
+    def boolean(e) -> bool:
+        if isinstance(e, ast.Compare):
+            return True
+        if isinstance(e, ast.UnaryOp) and isinstance(e.op, ast.Not):
+            return True
+        if isinstance(e, ast.Call) and isinstance(e.func, ast.Name) and e.func.id in ("isinstance", "issubclass", "callable", "hasattr", "bool"):
+            return True
+        if isinstance(e, ast.BoolOp):
+            return all(boolean(v) for v in e.values)
+        return False
+
+    class R(ast.NodeTransformer):
+        def visit_Subscript(self, n: ast.Subscript):
+            self.generic_visit(n)
+            if isinstance(n.value, ast.Name) and n.value.id in tables and isinstance(n.ctx, ast.Load) and boolean(n.slice):
+                t = tables[n.value.id]
+                return ast.copy_location(ast.IfExp(test=n.slice, body=copy.deepcopy(t[True]), orelse=copy.deepcopy(t[False])), n)
+            return n
+    for fn in ast.walk(tree):
+        if isinstance(fn, (ast.FunctionDef, ast.AsyncFunctionDef)):
+            fn.body = [R().visit(st) for st in fn.body]
+
+
+def _hoist_walrus(tree: ast.Module) -> None:
+    """C27  an assignment expression that is the first thing a statement evaluates (`if (x := f()) is None:`, `if not (opt := d.get(k)):`,
+    `y = g((x := f()))`) is the assignment statement `x = f()` followed by the statement with `x` in its place.  Only the leading one is
+    hoisted: a walrus behind `and` / `or`, inside a comprehension, a lambda or a `while` test is evaluated conditionally or repeatedly."""
+    def leading(e):
+        if isinstance(e, ast.NamedExpr):
+            return e
+        if isinstance(e, ast.UnaryOp):
+            return leading(e.operand)
+        if isinstance(e, ast.Compare):
+            return leading(e.left)
+        if isinstance(e, ast.BoolOp):
+            return leading(e.values[0])
+        if isinstance(e, ast.BinOp):
+            return leading(e.left)
+        if isinstance(e, (ast.Attribute, ast.Subscript)):
+            return leading(e.value)
+        if isinstance(e, ast.IfExp):
+            return leading(e.test)
+        if isinstance(e, ast.Call) and isinstance(e.func, ast.Name) and e.args and not isinstance(e.args[0], ast.Starred):
+            return leading(e.args[0])
+        if isinstance(e, ast.Call) and isinstance(e.func, ast.Attribute):
+            return leading(e.func.value)
+        return None
+
+    def walk(body):
+        i = 0
+        while i < len(body):
+            st = body[i]
+            fld = "test" if isinstance(st, ast.If) else ("value" if isinstance(st, (ast.Assign, ast.AnnAssign, ast.Expr, ast.Return, ast.AugAssign)) else None)
+            ex = getattr(st, fld, None) if fld else None
+            w = leading(ex) if ex is not None else None
+            if w is not None and isinstance(w.target, ast.Name):
+                pre = ast.copy_location(ast.Assign(targets=[ast.Name(id=w.target.id, ctx=ast.Store())], value=w.value, lineno=st.lineno), st)
+                nm = ast.copy_location(ast.Name(id=w.target.id, ctx=ast.Load()), w)
+
+                class R(ast.NodeTransformer):
+                    def visit_NamedExpr(self, n):
+                        return nm if n is w else self.generic_visit(n)
+                setattr(st, fld, R().visit(ex))
+                body.insert(i, pre)
+                i += 1
+                continue  # the same statement may start with another one now
+            for f2 in ("body", "orelse", "finalbody"):
+                b = getattr(st, f2, None)
+                if isinstance(b, list) and b and isinstance(b[0], ast.stmt):
+                    walk(b)
+            if isinstance(st, ast.Try):
+                for h in st.handlers:
+                    walk(h.body)
+            i += 1
+    for n in ast.walk(tree):
+        if isinstance(n, (ast.FunctionDef, ast.AsyncFunctionDef)):
+            walk(n.body)
+
+
 def _split_tuple_assigns(tree: ast.Module) -> None:
     """C25  `a, b = e1, e2` with plain local names on the left, none of which is read on the right: `a = e1; b = e2` (same evaluation
     order; a binding of a local has no effect the later expressions could see)."""
@@ -792,6 +898,14 @@ def _thread_sentinels(tree: ast.Module) -> None:
     the test that follows is copied into every arm and decided where the arm has just bound x to a constant.  Pure duplication, no
     assumption about E; at most one arm keeps the undecided copy."""
     NOVAL = object()
+    static_names = set()
+    for st_ in tree.body:
+        if isinstance(st_, (ast.FunctionDef, ast.AsyncFunctionDef, ast.ClassDef)):
+            static_names.add(st_.name)
+        elif isinstance(st_, ast.ImportFrom):
+            static_names.update(a_.asname or a_.name for a_ in st_.names)
+    rebound = {n_.id for n_ in ast.walk(tree) if isinstance(n_, ast.Name) and isinstance(n_.ctx, (ast.Store, ast.Del))}
+    static_names -= rebound  # a name that is assigned anywhere in the module is not a fixed function / class name
 
     def simple_test(t: ast.expr):
         """(name, fn: constant -> bool) for tests that read one local only"""
@@ -842,8 +956,8 @@ def _thread_sentinels(tree: ast.Module) -> None:
             stores = [n_ for n_ in ast.walk(a_) if isinstance(n_, ast.Name) and n_.id == x and isinstance(n_.ctx, (ast.Store, ast.Del))]
             if not stores:
                 continue
-            if isinstance(a_, ast.Assign) and len(a_.targets) == 1 and isinstance(a_.targets[0], ast.Name) and a_.targets[0].id == x and isinstance(a_.value, ast.Constant) \
-                    and len(stores) == 1 and found is NOVAL:
+            if isinstance(a_, ast.Assign) and len(a_.targets) == 1 and isinstance(a_.targets[0], ast.Name) and a_.targets[0].id == x and len(stores) == 1 and found is NOVAL \
+                    and (isinstance(a_.value, ast.Constant) or (isinstance(a_.value, ast.Name) and a_.value.id in static_names)):
                 found = a_.value
             else:
                 return NOVAL
@@ -855,7 +969,8 @@ def _thread_sentinels(tree: ast.Module) -> None:
         cands = []
         for x in sorted(reads - writes):
             ka, kb = arm_constant(st.body, x), arm_constant(st.orelse, x)
-            if ka is not NOVAL and kb is not NOVAL and isinstance(ka.value, (str, bytes, int, bool, type(None))) and ast.dump(ka) != ast.dump(kb):
+            if ka is not NOVAL and kb is not NOVAL and ast.dump(ka) != ast.dump(kb) and all(
+                    isinstance(k_, ast.Name) or isinstance(k_.value, (str, bytes, int, bool, type(None))) for k_ in (ka, kb)):
                 cands.append((x, ka, kb))
         if not cands or any(isinstance(n_, (ast.Lambda, ast.GeneratorExp, ast.ListComp, ast.SetComp, ast.DictComp)) for n_ in ast.walk(nxt)):
             return False
@@ -884,8 +999,8 @@ def _thread_sentinels(tree: ast.Module) -> None:
             if isinstance(st, ast.Try):
                 for h in st.handlers:
                     walk(h.body)
-            if isinstance(st, ast.If) and st.body and st.orelse and i + 1 < len(body) and isinstance(body[i + 1], (ast.Assign, ast.AugAssign, ast.Expr, ast.Return)) \
-                    and sink_constants(st, body[i + 1]):
+            if isinstance(st, ast.If) and st.body and st.orelse and i + 1 < len(body) and isinstance(body[i + 1], (ast.Assign, ast.AugAssign, ast.Expr, ast.Return, ast.If)) \
+                    and not (isinstance(body[i + 1], ast.If) and sum(1 for _ in ast.walk(body[i + 1])) > 120) and sink_constants(st, body[i + 1]):
                 # C26: a selector constant bound on both arms (`m = "alg"` / `m = "enc"`) and read by the next statement: the statement moves into
                 # both arms with the constant in place (`header[m]` is `header["alg"]` / `header["enc"]`)
                 del body[i + 1]
@@ -919,6 +1034,11 @@ def canonicalise(tree: ast.Module, module: str = "") -> ast.Module:
         _unroll_table_loops(tree, known)
     if os.environ.get("JV_CANON_C14", "1") == "1":
         tree = _DropAnn().visit(tree)
+    if os.environ.get("JV_CANON_C27", "1") == "1":
+        _hoist_walrus(tree)
+    if os.environ.get("JV_CANON_C28", "1") == "1":
+        from .renames import reference as _ref
+        _bool_tables(tree, {q.split(":", 1)[1] for q in _ref()[1] if q.startswith(module + ":")})
     if os.environ.get("JV_CANON_C11", "1") == "1":
         tree = _Split().visit(tree)
         tree.body = _nest_guards(tree.body, False)
